@@ -247,7 +247,12 @@ class Violin(object):
             selected = irest | ilow | ihigh
 
             # Run kde estimate
-            kernel = gaussian_kde(values[selected])
+            try:
+                kernel = gaussian_kde(values[selected])
+            except (np.linalg.LinAlgError, ValueError):
+                # Degenerate sample (e.g. constant column):
+                # no density profile, kde remains nan
+                continue
 
             # blend regular spacing and ecdf spacing
             q = np.linspace(0, 1, npts//2)
